@@ -236,6 +236,8 @@ def run(chk):
 
     chk.rule("R9v", "SqliteImpl.compile_cast interpreted for Datetime -> String: the text is not produced through strftime's `%f` (engine knowledge: SS.SSS, millisecond resolution)")
 
+    chk.rule("R10v", "PolarsImpl.__init__ interpreted on an eager and on a lazy frame stub: both kinds of resource get the same Datetime time-unit normalisation (ns / ms -> us; the native Datetime -> String prints as many fractional digits as the time unit has)")
+
     ce, func, accepted, sources, targets = accepted_by_interpretation(chk, m)
     exp, rows = documented_table(T)
     # what the documented table means for the universe: sources are looked up without const and without a string
@@ -371,6 +373,9 @@ def run(chk):
 
     # ---- R8v storage class of float-typed MIN / MAX on SQLite (what Float -> String prints)
     _sqlite_real_fix(chk, m)
+
+    # ---- R10v time unit of Polars datetime columns (the digits Datetime -> String prints)
+    _polars_time_unit(chk, m)
 
 
 def _type_helpers(chk, m, valid_pairs):
@@ -659,6 +664,79 @@ def _sqlite_real_fix(chk, m):
         chk.ob("R9v", mod, fc.node, what + " keeps microseconds", not ms,
                f"{what} builds {str(r)[:160]}: SQLite's strftime `%f` prints SS.SSS (millisecond resolution, rounded), so the documented "
                "YYYY-MM-DD HH:MM:SS.SSSSSS text loses or carries the digits below one millisecond")  # fmt: skip
+
+
+def _polars_time_unit(chk, m):
+    """R10v (sibling rule over the two kinds of resource): PolarsImpl.__init__ interpreted with a frame stub that records the
+    `.cast({..})` mappings applied to it; `isinstance(df, pl.LazyFrame / pl.DataFrame)` is decided by the stub's kind"""
+    from ..interp import Native, Obj, PyRaise, SymbolicBranch, SymNS, Term
+    from ..polsim import _OP_CLASS
+    from ..program import Program
+
+    try:
+        mod = chk.repo.mod("backend.polars")
+        prog = Program(chk.repo, m_types_env(m), primary="backend.polars")
+        env = prog.env_of(mod)
+        cls_ = env["PolarsImpl"]
+        f = cls_.methods.get("__init__")
+    except (AnalysisError, KeyError) as e:
+        chk.note(f"R10v: PolarsImpl not found ({str(e)[:100]})")
+        return
+    if f is None or f.owner is not cls_:
+        chk.note("R10v: PolarsImpl has no __init__ of its own")
+        return
+
+    def frame(kind, casts=()):
+        o = Obj.__new__(Obj)
+        o.cls = _OP_CLASS
+        o.attrs = {"__kind__": kind, "__casts__": tuple(casts)}
+
+        def cast(mapping=None, *a, **k):
+            rec = tuple(sorted((repr(k_), repr(v_)) for k_, v_ in mapping.items())) if isinstance(mapping, dict) else (("?", repr(mapping)),)
+            return frame(kind, tuple(casts) + rec)
+
+        o.attrs["cast"] = Native(cast, "frame.cast")
+        o.attrs["lazy"] = Native(lambda *a, **k: frame("lazy", casts), "frame.lazy")
+        o.attrs["collect_schema"] = Native(lambda *a, **k: {}, "frame.collect_schema")
+        o.attrs["schema"] = {}
+        o.attrs["columns"] = []
+        return o
+
+    def isinst(v, spec):
+        specs = spec if isinstance(spec, tuple) else (spec,)
+        if isinstance(v, Obj) and "__kind__" in v.attrs and all(isinstance(s_, (SymNS, Term)) for s_ in specs):
+            names = [repr(s_).split(".")[-1] for s_ in specs]
+            return any((n_ == "LazyFrame" and v.attrs["__kind__"] == "lazy") or (n_ == "DataFrame" and v.attrs["__kind__"] == "eager") for n_ in names)
+        raise SymbolicBranch(f"isinstance({v!r}, {spec!r})")
+
+    env["isinstance"] = Native(isinst, "isinstance")
+    got = {}
+    try:
+        for kind in ("eager", "lazy"):
+            o = Obj(cls_)
+            try:
+                prog.call(f.bind(o), ["t", frame(kind)])
+            except PyRaise as p_:
+                chk.ob("R10v", mod, f.node, f"PolarsImpl.__init__ on a {kind} frame", False, f"PolarsImpl.__init__ on a {kind} frame raises {p_.name}: {p_.msg}")
+                return
+            df = o.attrs.get("df")
+            if not (isinstance(df, Obj) and "__kind__" in df.attrs):
+                chk.note(f"R10v: self.df after PolarsImpl.__init__ on a {kind} frame is {df!r}: not decided")
+                return
+            got[kind] = (df.attrs["__kind__"], frozenset(df.attrs["__casts__"]))
+    except (AnalysisError, SymbolicBranch) as e:
+        chk.note(f"R10v: PolarsImpl.__init__ not interpreted ({str(e)[:140]})")
+        return
+    finally:
+        env.pop("isinstance", None)
+    for kind, (k2, casts) in got.items():
+        chk.ob("R10v", mod, f.node, f"PolarsImpl.__init__({kind} frame): self.df is lazy", k2 == "lazy",
+               f"PolarsImpl.__init__ keeps a {k2} frame in self.df for a {kind} resource; the compiler works on lazy frames")  # fmt: skip
+    same = got["eager"][1] == got["lazy"][1]
+    only = sorted(got["eager"][1] ^ got["lazy"][1])
+    chk.ob("R10v", mod, f.node, f"time-unit normalisation agrees for eager and lazy resources ({len(got['eager'][1])} mappings)", same,
+           f"PolarsImpl.__init__ casts {sorted(got['eager'][1])} on an eager pl.DataFrame but {sorted(got['lazy'][1])} on a pl.LazyFrame (differs in {only}): a datetime "
+           "column of the other resource kind keeps its ns / ms time unit, and Datetime -> String prints 9 / 3 fractional digits instead of the documented 6")  # fmt: skip
 
 
 def m_types_env(m):
